@@ -86,8 +86,8 @@ def run(tier, seed):
     r.rule = ('every pair (previous connection history with its ending, next connection history) from spec/GenC17.tla: 23 endings (mid HTTP '
               'header, mid frame header, mid payload, mid fragmented text/binary, mid code point, mid compression context, while closing, closed by '
               'either side, rejected, connect failure, close()/send called at the terminal event of a failed / rejected / dropped attempt, protocol error, invalid UTF-8, abandoned by break / exception / generator.close() / with-block) '
-              'x 8 continuations, on one object via connect() twice and via persist(); compared with a fresh object; non-trivial = all pairs')
-    r.assumptions = ['time is frozen; masking keys are drawn from a per-scenario seeded generator and are not part of the observable']
+              'x 10 continuations, on one object via connect() twice and via persist(); compared with a fresh object; non-trivial = all pairs')
+    r.assumptions = ['time stands still except in the continuation that idles for 40 s; masking keys are drawn from a per-scenario seeded generator and are not part of the observable']
     res, _ = pipeline.generate('GenC17', "SPECIFICATION Spec\nINVARIANT EmitCases\nCHECK_DEADLOCK FALSE\n")
     r.add_tlc('GenC17 (endings x continuations)', res)
     cases = [l for l in res.lines if isinstance(l, dict) and 'first' in l]
